@@ -71,10 +71,12 @@ impl Ctx {
     /// The call about to be made, kept in a side file: if the whole process dies (abort, stack overflow) or hangs, the
     /// orchestrator attributes that outcome to this call.
     pub fn begin(&mut self, api: &str, arg: &str) {
+        watchdog::arm();
         let _ = self.out.flush();
         let _ = std::fs::write(&self.inflight, obj(&[("api", qs(api)), ("arg", qs(&arg.chars().take(4000).collect::<String>()))]));
     }
     pub fn emit(&mut self, line: String) {
+        watchdog::disarm();
         self.events += 1;
         writeln!(self.out, "{}", line).unwrap();
     }
@@ -88,6 +90,42 @@ impl Ctx {
         self.emit(obj(&[("ev", qs("EndRun")), ("cases", self.case.to_string())]));
         self.out.flush().unwrap();
         let _ = std::fs::remove_file(&self.inflight);
+    }
+}
+
+/// Per-call watchdog: a library call that does not return within the limit (VERIF_CALL_LIMIT_S, default 45 s - the slowest
+/// legitimate call on the widest claim sets takes well under a second) ends the driver process with exit status 124; the
+/// orchestrator records the in-flight call with outcome "timeout" (clause `total`).  Without it a non-terminating call was
+/// only noticed when the whole driver hit its one-hour limit.
+pub mod watchdog {
+    use std::sync::atomic::{AtomicU64, Ordering};
+    use std::sync::Once;
+    use std::time::{Duration, Instant};
+    static ARMED_AT_MS: AtomicU64 = AtomicU64::new(0);
+    static START: Once = Once::new();
+    fn now_ms(t0: Instant) -> u64 {
+        t0.elapsed().as_millis() as u64 + 1
+    }
+    static T0: std::sync::OnceLock<Instant> = std::sync::OnceLock::new();
+    fn t0() -> Instant {
+        *T0.get_or_init(Instant::now)
+    }
+    pub fn arm() {
+        START.call_once(|| {
+            let limit: u64 = std::env::var("VERIF_CALL_LIMIT_S").ok().and_then(|s| s.parse().ok()).unwrap_or(45);
+            std::thread::spawn(move || loop {
+                std::thread::sleep(Duration::from_millis(250));
+                let a = ARMED_AT_MS.load(Ordering::SeqCst);
+                if a != 0 && now_ms(t0()) > a + limit * 1000 {
+                    eprintln!("harness: a library call did not return within {limit} s");
+                    std::process::exit(124);
+                }
+            });
+        });
+        ARMED_AT_MS.store(now_ms(t0()), Ordering::SeqCst);
+    }
+    pub fn disarm() {
+        ARMED_AT_MS.store(0, Ordering::SeqCst);
     }
 }
 
